@@ -26,3 +26,6 @@ func (lsm *LSM) VerifQueueMemFree() int64 {
 	}
 	return lsm.option.MemTableSize - atomic.LoadInt64(&lsm.memTable.walSize)
 }
+
+// VerifQueueAdjustThrottle runs the real AdjustThrottle (L0 table count against the watermarks).
+func (lsm *LSM) VerifQueueAdjustThrottle() { lsm.levels.AdjustThrottle() }
